@@ -6,7 +6,8 @@ GEN     Gen_Framing: every octet string <= N over {label lengths, reserved types
         classified by the spec (must-reject: loop, reserved label type, > 255 octets, runs past the end) -> harness
         `hostile replay`: must-reject inputs must be refused; accepted names must equal the spec's.
 TV      every decode the real code ACCEPTS (from the vectors and from `hostile record`: mutations of valid messages
-        of ~85 RR types, every truncation point, lying counts, spliced pointers) is written as an event and judged by
+        of ~85 RR types, every truncation point, lying counts, spliced pointers, tail cuts with fixed-up lengths, and a systematic sweep that overwrites every RDATA octet / 16-bit position of every zoo record
+        and every single EDNS0 option with boundary values) is written as an event and judged by
         Trace_Framing: records are a prefix of the framing walk of the same octets, every name is valid.
 Observed by the harness, not the spec: panics, wall time (2 s, reproduced 3x), TotalAlloc <= 512*len + 64 KiB,
         String/Len/Copy/Pack of accepted results do not panic.
@@ -46,7 +47,11 @@ def tv(ctx, ev):
 def rec(ctx, binp, n, nproc):
     def one(k):
         ev = os.path.join(ctx.out, "events-rec-%d.ndjson" % k)
-        s = ctx.run_json(binp, ["record", ev, str(n)], env={"VERIF_SEED": str(ctx.seed * 1000 + k)}, timeout=3000)
+        # the systematic RDATA sweep is split over the recorder processes (quick: a seed-rotated quarter of the positions)
+        stride = nproc if not ctx.quick else nproc * 4
+        phase = k if not ctx.quick else (k + nproc * (ctx.seed % 4))
+        s = ctx.run_json(binp, ["record", ev, str(n)], timeout=3000,
+                         env={"VERIF_SEED": str(ctx.seed * 1000 + k), "VERIF_SWEEP": "%d/%d" % (stride, phase)})
         vp.absorb(ctx, s, traces=False)
         tv(ctx, ev)
     vp.parallel([lambda k=k: one(k) for k in range(nproc)])
